@@ -217,6 +217,9 @@ def r2_4(ctx):
     f = ctx.repo.fn("_wrap:divide_line")
     m = f.module
     aliases = alias_map(f.node)
+    # the list of break offsets: whatever name the function returns
+    out_names = {r_.value.id for r_ in walk_local(f.node) if isinstance(r_, ast.Return) and isinstance(r_.value, ast.Name)} or {"divides"}
+    out_appends = {f"{n_}.append" for n_ in out_names}
     unit: Dict[str, str] = {"width": "cells"}
 
     def u(e) -> Optional[str]:
@@ -259,7 +262,7 @@ def r2_4(ctx):
             n += 1
             ctx.check(not ({a, b} == {"cells", "chars"}), f.fq, norm(x), f"{m.relpath}:{x.lineno}", f"{x.target.id} ({a}) advanced by a {b or 'unitless'} quantity",
                       f"`{norm(x)}` advances a {a} quantity by a {b} quantity: break offsets must be counted in characters and line positions in cells")
-        if isinstance(x, ast.Call) and norm(expand_alias(x.func, aliases)) == "divides.append" and x.args:
+        if isinstance(x, ast.Call) and norm(expand_alias(x.func, aliases)) in out_appends and x.args:
             n += 1
             ctx.check(u(x.args[0]) == "chars", f.fq, norm(x), f"{m.relpath}:{x.lineno}", "a character offset is recorded as break position",
                       f"`{norm(x)}` records `{norm(x.args[0])}` ({u(x.args[0]) or 'unknown unit'}) as a break offset; offsets index characters of the text")
@@ -326,22 +329,46 @@ def r2_4(ctx):
     matches = [c for c in walk_local(w.node) if isinstance(c, ast.Call) and isinstance(c.func, ast.Attribute) and c.func.attr == "match" and norm(c.func.value) == "re_word"]
     mvars = {norm(a.targets[0]) for a in walk_local(w.node) if isinstance(a, ast.Assign) and a.value in matches}
     span_unpack = [a for a in walk_local(w.node) if isinstance(a, ast.Assign) and isinstance(a.targets[0], ast.Tuple) and len(a.targets[0].elts) == 2 and isinstance(a.value, ast.Call) and isinstance(a.value.func, ast.Attribute) and a.value.func.attr == "span" and norm(a.value.func.value) in mvars]
-    ok = len(mvars) == 1 and len(span_unpack) == 1 and len(matches) >= 2
+    ok = len(mvars) == 1 and len(span_unpack) == 1 and len(matches) >= 1
     if ok:
         s_name, e_name = (norm(e) for e in span_unpack[0].targets[0].elts)
         mv = next(iter(mvars))
         sd = single_defs(w.node)
-        pos = []
+        # every anchor is 0 (the first match) or the end of the previous match: read off the reaching definitions of the position
+        gw = cfgmod.build(w.node)
+        rdw = gw.reaching_defs(weak=False)
+        kinds = set()
         for c in matches:
             ok = ok and len(c.args) == 2 and norm(c.args[0]) == "text"
-            if len(c.args) == 2:
-                pos.append(norm(inline(c.args[1], sd, keep=(s_name, e_name))))
-        ok = ok and sorted(pos) == sorted(["0"] + [e_name] * (len(matches) - 1))
+            if len(c.args) != 2:
+                continue
+            pa = c.args[1]
+            if isinstance(pa, ast.Constant) and pa.value == 0:
+                kinds.add("zero")
+                continue
+            if not isinstance(pa, ast.Name):
+                kinds.add("other:" + norm(pa))
+                continue
+            st_ = c
+            while not isinstance(st_, ast.stmt):
+                st_ = m.parent_of[st_] if st_ in m.parent_of else w.module.parent_of[st_]
+            for nid in gw.nodes_of(st_):
+                for d in rdw.get(nid, {}).get(pa.id, set()):
+                    ds = gw.nodes[d].stmt
+                    if isinstance(ds, ast.Assign) and len(ds.targets) == 1 and isinstance(ds.targets[0], ast.Name) and isinstance(ds.value, ast.Constant) and ds.value.value == 0:
+                        kinds.add("zero")
+                    elif ds is span_unpack[0] and pa.id == e_name:
+                        kinds.add("end")
+                    elif isinstance(ds, ast.Assign) and len(ds.targets) == 1 and norm(ds.value) in (e_name, f"{mv}.end()", f"{mv}.end(0)", f"{mv}.span()[1]"):
+                        kinds.add("end")
+                    else:
+                        kinds.add("other:" + (short(ds) if ds is not None else "?"))
+        ok = ok and kinds == {"zero", "end"}
         ys = [y for y in walk_local(w.node) if isinstance(y, ast.Yield)]
         ok = ok and len(ys) == 1 and isinstance(ys[0].value, ast.Tuple) and len(ys[0].value.elts) == 3
         if ok:
             a, b, c3 = ys[0].value.elts
-            ok = norm(a) == s_name and norm(b) == e_name and norm(inline(c3, sd, keep=(s_name, e_name))) in (f"{mv}.group(0)", f"{mv}.group()", f"text[{s_name}:{e_name}]")
+            ok = norm(a) == s_name and norm(b) == e_name and norm(inline(c3, sd, keep=(s_name, e_name, mv))) in (f"{mv}.group(0)", f"{mv}.group()", f"text[{s_name}:{e_name}]")
     if not matches:
         # finditer form: equal to anchored matching exactly because the word pattern is \s*\S+\s* (a match swallows all the
         # whitespace after the word, so the next non-space character - where a search finds the next match - is where it ended)
